@@ -527,15 +527,17 @@ impl UnitIndex {
     }
 
     fn add_unit(&mut self, unit: &Unit, id: usize) -> Result<usize, ConverterBuilderError> {
+        // check all the keys before touching the index: a rejected unit must not
+        // leave keys behind (or steal the ones of another unit), the builder can
+        // still be used after the error
         let mut added = 0;
-        for key in unit.all_keys() {
+        for (i, key) in unit.all_keys().enumerate() {
             if key.trim().is_empty() {
                 return Err(ConverterBuilderError::EmptyUnitKey {
                     unit: unit.clone().into(),
                 });
             }
-            let maybe_other = self.0.insert(Arc::clone(key), id);
-            if maybe_other.is_some() {
+            if self.0.contains_key(key) || unit.all_keys().take(i).any(|k| k == key) {
                 return Err(ConverterBuilderError::DuplicateUnit {
                     name: key.to_string(),
                 });
@@ -546,6 +548,9 @@ impl UnitIndex {
             return Err(ConverterBuilderError::EmptyUnit {
                 unit: unit.clone().into(),
             });
+        }
+        for key in unit.all_keys() {
+            self.0.insert(Arc::clone(key), id);
         }
         Ok(added)
     }
